@@ -733,11 +733,19 @@ avx_rule_accw (OrcCompiler *p, void *user, OrcInstruction *insn)
 
   const int size = p->vars[insn->src_args[0]].size << p->loop_shift;
 
-  // More than one element and it's unsafe
-  if (size >= 2) {
+  if (size >= 32) {
     orc_avx_emit_paddw (p, dest, src, dest);
   } else {
-    orc_avx_sse_emit_paddw (p, dest, src, dest);
+    /* only the low bytes hold elements of this iteration; the 128-bit
+     * operations also clear the upper half of tmp */
+    const int tmp = orc_compiler_get_temp_reg (p);
+
+    if (size >= 16) {
+      orc_avx_sse_emit_movdqa (p, src, tmp);
+    } else {
+      orc_avx_sse_emit_pslldq_imm (p, 16 - size, src, tmp);
+    }
+    orc_avx_emit_paddw (p, dest, tmp, dest);
   }
 }
 
@@ -747,17 +755,21 @@ avx_rule_accl (OrcCompiler *p, void *user, OrcInstruction *insn)
   const int src = p->vars[insn->src_args[0]].alloc;
   const int dest = p->vars[insn->dest_args[0]].alloc;
 
-  if (p->loop_shift == 0) {
-    orc_avx_sse_emit_pslldq_imm (p, 12, src, src);
-  }
-
   const int size = p->vars[insn->src_args[0]].size << p->loop_shift;
 
-  // More than one element and it's unsafe
-  if (size >= 4) {
+  if (size >= 32) {
     orc_avx_emit_paddd (p, dest, src, dest);
   } else {
-    orc_avx_sse_emit_paddd (p, dest, src, dest);
+    /* only the low bytes hold elements of this iteration; the 128-bit
+     * operations also clear the upper half of tmp */
+    const int tmp = orc_compiler_get_temp_reg (p);
+
+    if (size >= 16) {
+      orc_avx_sse_emit_movdqa (p, src, tmp);
+    } else {
+      orc_avx_sse_emit_pslldq_imm (p, 16 - size, src, tmp);
+    }
+    orc_avx_emit_paddd (p, dest, tmp, dest);
   }
 }
 
